@@ -4,6 +4,7 @@
 
 #include <errno.h>
 #include <string.h>
+#include <stdint.h>
 
 #include "types.h"
 
@@ -34,9 +35,17 @@ extern void *mpt_buffer_insert(MPT_STRUCT(buffer) *buf, size_t pos, size_t len)
 	/* need memory for inserted and existing data */
 	used = buf->_used;
 	if (pos < used) {
+		if ((SIZE_MAX - used) < len) {
+			errno = EINVAL;
+			return 0;
+		}
 		total = used + len;
 		keep = used - pos;
 	} else {
+		if ((SIZE_MAX - pos) < len) {
+			errno = EINVAL;
+			return 0;
+		}
 		total = pos + len;
 		keep = 0;
 	}
